@@ -933,3 +933,89 @@ VARIANTS += [
       edits=alg_method(ALG_METHOD.replace('switch hash := outcome.EnvelopeContent.SignerInfo.SignatureAlgorithm.Hash(); hash {', 'switch hash := crypto.SHA256; hash {'))),
  dict(name='algorithm-map-in-another-package-miss-ignored', expect='flagged(blob/algorithm-lookup)', edits=alg_other_package(test='!ok && cryptoHash == 0')),
 ]
+
+# ---- fourth pass: the front part of both entry points (outcome allocation, skip gate, signature processing, payload
+# decoding) behind ONE helper that hands back a tuple and signals its skip exit through a sentinel result
+_SRC = open('/repo/' + V).read()
+_OCI_START = '\t// ignore the error since we already validated the policy document\n\tverificationLevel, _ := trustPolicy.SignatureVerification.GetVerificationLevel()\n\n\toutcome := '
+_BLOB_START = '\t// ignore the error since we already validated the policy document\n\tverificationLevel, _ := trustPolicy.SignatureVerification.GetVerificationLevel()\n\toutcome := '
+OCI_FRONT = _SRC[_SRC.index(_OCI_START):_SRC.index('\tif !content.Equal(payload.TargetArtifact, desc) {')]
+BLOB_FRONT = _SRC[_SRC.index(_BLOB_START):_SRC.index('\tcryptoHash := outcome.EnvelopeContent.SignerInfo.SignatureAlgorithm.Hash()\n')]
+PIPE_ANCHOR = 'func (v *verifier) processSignature(ctx context.Context, sigBlob []byte,'
+PIPE_SIG = 'func (v *verifier) verifyEnvelope(ctx context.Context, sigBlob []byte, envelopeMediaType, policyName string, trustedIdentities, trustStores []string, signatureVerification trustpolicy.SignatureVerification, pluginConfig map[string]string) '
+PIPE_HELPER = PIPE_SIG + '''(*notation.VerificationOutcome, *envelope.Payload, error) {
+	logger := log.GetLogger(ctx)
+	verificationLevel, _ := signatureVerification.GetVerificationLevel()
+	outcome := &notation.VerificationOutcome{
+		RawSignature:      sigBlob,
+		VerificationLevel: verificationLevel,
+	}
+	if reflect.DeepEqual(verificationLevel, trustpolicy.LevelSkip) {
+		logger.Debug("Skipping signature verification")
+		return outcome, nil, nil
+	}
+	if err := v.processSignature(ctx, sigBlob, envelopeMediaType, policyName, trustedIdentities, trustStores, signatureVerification, pluginConfig, outcome); err != nil {
+		outcome.Error = err
+		return outcome, nil, err
+	}
+	payload := &envelope.Payload{}
+	if err := json.Unmarshal(outcome.EnvelopeContent.Payload.Content, payload); err != nil {
+		logger.Error("Failed to unmarshal the payload content in the signature blob to envelope.Payload")
+		outcome.Error = err
+		return outcome, nil, err
+	}
+	return outcome, payload, nil
+}
+
+'''
+PIPE_GUARD = '\tif err != nil || payload == nil {\n\t\treturn outcome, err\n\t}\n\n'
+def pipe_call(mt, cfg, lhs='outcome, payload, err'):
+    return '\t' + lhs + ' := v.verifyEnvelope(ctx, signature, ' + mt + ', trustPolicy.Name, trustPolicy.TrustedIdentities, trustPolicy.TrustStores, trustPolicy.SignatureVerification, ' + cfg + ')\n'
+def pipeline(helper=PIPE_HELPER, guard=PIPE_GUARD, lhs='outcome, payload, err'):
+    return [(V, OCI_FRONT, pipe_call('envelopeMediaType', 'pluginConfig', lhs) + guard),
+            (V, BLOB_FRONT, pipe_call('opts.SignatureMediaType', 'opts.PluginConfig', lhs) + guard),
+            (V, PIPE_ANCHOR, helper + PIPE_ANCHOR)]
+# the sentinel is a flag instead of the nil payload
+PIPE_FLAG_HELPER = (PIPE_HELPER.replace('(*notation.VerificationOutcome, *envelope.Payload, error) {', '(*notation.VerificationOutcome, *envelope.Payload, bool, error) {')
+    .replace('return outcome, nil, nil\n', 'return outcome, nil, true, nil\n').replace('return outcome, nil, err\n', 'return outcome, nil, false, err\n')
+    .replace('return outcome, payload, nil\n', 'return outcome, payload, false, nil\n'))
+PIPE_FLAG_GUARD = '\tif err != nil || skipped {\n\t\treturn outcome, err\n\t}\n\n'
+# the results in another order
+PIPE_SWAP_HELPER = (PIPE_HELPER.replace('(*notation.VerificationOutcome, *envelope.Payload, error) {', '(*envelope.Payload, *notation.VerificationOutcome, error) {')
+    .replace('return outcome, nil, nil\n', 'return nil, outcome, nil\n').replace('return outcome, nil, err\n', 'return nil, outcome, err\n')
+    .replace('return outcome, payload, nil\n', 'return payload, outcome, nil\n'))
+PIPE_PROC_FAIL = '\t\toutcome.Error = err\n\t\treturn outcome, nil, err\n\t}\n\tpayload := &envelope.Payload{}\n'
+VARIANTS += [
+ dict(name='benign-pipeline-helper-nil-payload-sentinel', expect='silent', edits=pipeline()),
+ dict(name='benign-pipeline-helper-two-guards', expect='silent',
+      edits=pipeline(guard='\tif err != nil {\n\t\treturn outcome, err\n\t}\n\tif payload == nil {\n\t\treturn outcome, nil\n\t}\n\n')),
+ dict(name='benign-pipeline-helper-skipped-flag', expect='silent', edits=pipeline(PIPE_FLAG_HELPER, PIPE_FLAG_GUARD, 'outcome, payload, skipped, err')),
+ dict(name='benign-pipeline-helper-results-reordered', expect='silent', edits=pipeline(PIPE_SWAP_HELPER, lhs='payload, outcome, err')),
+ # broken counterparts
+ dict(name='pipeline-helper-failed-processing-reads-as-skip', expect='flagged(oci/)',
+      edits=pipeline(PIPE_HELPER.replace(PIPE_PROC_FAIL, PIPE_PROC_FAIL.replace('return outcome, nil, err\n', 'return outcome, nil, nil\n')))),
+ dict(name='pipeline-helper-nil-payload-accepted-before-error-check', expect='flagged(oci/)',
+      edits=pipeline(guard='\tif payload == nil {\n\t\treturn outcome, nil\n\t}\n\tif err != nil {\n\t\treturn outcome, err\n\t}\n\n')),
+ dict(name='pipeline-helper-decode-failure-swallowed', expect='flagged(oci/payload-decode)',
+      edits=pipeline(PIPE_HELPER.replace('\t\tlogger.Error("Failed to unmarshal the payload content in the signature blob to envelope.Payload")\n\t\toutcome.Error = err\n\t\treturn outcome, nil, err\n',
+                                         '\t\tlogger.Error("Failed to unmarshal the payload content in the signature blob to envelope.Payload")\n\t\treturn outcome, payload, nil\n'))),
+ dict(name='pipeline-helper-skipped-flag-set-on-failed-processing', expect='flagged(blob/)',
+      edits=pipeline(PIPE_FLAG_HELPER.replace('\t\toutcome.Error = err\n\t\treturn outcome, nil, false, err\n\t}\n\tpayload := ', '\t\treturn outcome, nil, true, nil\n\t}\n\tpayload := '),
+                     PIPE_FLAG_GUARD, 'outcome, payload, skipped, err')),
+ dict(name='pipeline-helper-skipped-flag-inverted-in-caller', expect='flagged(oci/)',
+      edits=pipeline(PIPE_FLAG_HELPER, '\tif err != nil || !skipped {\n\t\treturn outcome, err\n\t}\n\n', 'outcome, payload, skipped, err')),
+ dict(name='pipeline-helper-skips-without-level-test', expect='flagged(oci/)',
+      edits=pipeline(PIPE_HELPER.replace('\tif reflect.DeepEqual(verificationLevel, trustpolicy.LevelSkip) {', '\tif reflect.DeepEqual(verificationLevel, trustpolicy.LevelSkip) || len(trustStores) == 0 {'))),
+ dict(name='pipeline-helper-without-envelope-processing', expect='flagged(oci/parse-envelope)',
+      edits=pipeline(PIPE_HELPER.replace('\tif err := v.processSignature(ctx, sigBlob, envelopeMediaType, policyName, trustedIdentities, trustStores, signatureVerification, pluginConfig, outcome); err != nil {',
+                                         '\tif err := v.processSignature(ctx, sigBlob, envelopeMediaType, policyName, trustedIdentities, trustStores, signatureVerification, pluginConfig, outcome); err != nil && len(trustStores) > 0 {'))),
+]
+# the object the helper hands back must be the one it decoded into (descriptions name allocations by type and syntax only)
+VARIANTS += [
+ dict(name='pipeline-helper-returns-undecoded-payload', expect='flagged(oci/descriptor-equal)',
+      edits=pipeline(PIPE_HELPER.replace('\treturn outcome, payload, nil\n', '\tpayload = &envelope.Payload{}\n\treturn outcome, payload, nil\n'))),
+ dict(name='pipeline-caller-compares-another-payload', expect='flagged(oci/)',
+      edits=pipeline() + [(V, '\tif !content.Equal(payload.TargetArtifact, desc) {', '\tother := &envelope.Payload{}\n\tif !content.Equal(other.TargetArtifact, desc) {')]),
+ dict(name='pipeline-helper-returns-fresh-outcome', expect='flagged(oci/same-outcome)',
+      edits=pipeline(PIPE_HELPER.replace('\treturn outcome, payload, nil\n', '\treturn &notation.VerificationOutcome{RawSignature: sigBlob, VerificationLevel: verificationLevel}, payload, nil\n'))),
+]
